@@ -28,6 +28,8 @@ var zzC10Pool = []zzC10Pat{
 	{p: "/p/a"},        // exists only as an inner node of the tree (between /p/au and /p/ab)
 	{p: "/zz/{q}"},     // never registered
 	{p: "/i/{n:digit}"}, // prefix of a live route
+	{p: "/d/{--k}", live: true},        // an ignored parameter whose name starts with '-'
+	{p: "/{a}/{b}/{a}", malformed: true, keys: []string{"a", "b"}}, // a repeated name that is not adjacent
 	{p: "/{}", malformed: true, keys: []string{"a"}},
 	{p: "/{a}{b}", malformed: true, keys: []string{"a", "b"}},
 	{p: "/{a}/{a}", malformed: true, keys: []string{"a"}},
